@@ -15,7 +15,7 @@ import (
 var dEndpoints = []string{"etcd-1:2379"}
 
 const dKey = "svc"
-const dKey2 = "other"
+const dKey2 = "svc.v2" // a second service whose name extends the first one as a string: its keys are not under "svc/"
 
 // each key carries one value during its life (as publishers produce)
 var dValueOf = map[string]string{"k1": "vA", "k2": "vA", "k3": "vB", "o1": "vC"}
